@@ -2,7 +2,8 @@
 From Coq Require Import ZArith List.
 From I18n Require Import Lib.Outcome Model.IntExpr Spec.CPlural Generated.PyConsts
   Proofs.Codomain Proofs.IntExprEval Proofs.IntExprParse Proofs.IntExprFuel Proofs.IntExprComplete
-  Proofs.IntExprLex.
+  Proofs.IntExprLex
+  Lib.PySrc Generated.IntExprSrc Proofs.IntExprSrc Proofs.IntExprSrcEv.
 Import ListNotations.
 Local Open Scope Z_scope.
 
@@ -142,6 +143,63 @@ Print Assumptions C04_eval_no_crash.
 Theorem C04_parse_no_value_error : forall s, parse_string int_max_str_digits s <> Crash CValueError.
 Proof. exact (parse_string_no_value_error int_max_str_digits eq_refl). Qed.
 Print Assumptions C04_parse_no_value_error.
+
+(* ---- Source tie.  Generated/IntExprSrc.v is the statement-by-statement translation (tools/gen/gen_intexpr_src.py) of the
+   methods of lib/intexpr.py, regenerated from the working tree on every run.  The translated methods of class Evaluator
+   (and of BaseEvaluator) equal the evaluator model the theorems above are about, for all arguments. *)
+Theorem C04_source_tie_check_overflow : forall M n, src_ev_check_overflow M n = of_eres (check_overflow M n).
+Proof. exact src_ev_check_overflow_eq. Qed.
+Print Assumptions C04_source_tie_check_overflow.
+
+Theorem C04_source_tie_arith : forall M x y,
+  src_ev_add M x y = of_eres (eval_bin M Add x y) /\ src_ev_sub M x y = of_eres (eval_bin M Sub x y) /\
+  src_ev_mult M x y = of_eres (eval_bin M Mult x y) /\ src_ev_div x y = of_eres (eval_bin M Div x y) /\
+  src_ev_mod x y = of_eres (eval_bin M Mod x y).
+Proof. exact ev_tie_arith. Qed.
+Print Assumptions C04_source_tie_arith.
+
+Theorem C04_source_tie_compare : forall x y,
+  src_ev_gte x y = SRet (eval_cmp CGe x y) /\ src_ev_gt x y = SRet (eval_cmp CGt x y) /\
+  src_ev_lte x y = SRet (eval_cmp CLe x y) /\ src_ev_lt x y = SRet (eval_cmp CLt x y) /\
+  src_ev_eq x y = SRet (eval_cmp CEq x y) /\ src_ev_noteq x y = SRet (eval_cmp CNe x y) /\
+  src_ev_not x = SRet (b2z (x =? 0)).
+Proof. exact ev_tie_compare. Qed.
+Print Assumptions C04_source_tie_compare.
+
+(* the loops of _visit_and / _visit_or (lazy: the second operand is visited only if needed) and _visit_ifexp, with
+   self._visit = the model *)
+Theorem C04_source_tie_and : forall M n a b, src_ev_and (ev_vis M n) [NE a; NE b] = of_eres (pyeval M (And a b) n).
+Proof. exact src_ev_and_eq. Qed.
+Print Assumptions C04_source_tie_and.
+Theorem C04_source_tie_or : forall M n a b, src_ev_or (ev_vis M n) [NE a; NE b] = of_eres (pyeval M (Or a b) n).
+Proof. exact src_ev_or_eq. Qed.
+Print Assumptions C04_source_tie_or.
+Theorem C04_source_tie_ifexp : forall M n c a b,
+  src_ev_ifexp (ev_vis M n) (NE c) (NE a) (NE b) = of_eres (pyeval M (If c a b) n).
+Proof. exact src_ev_ifexp_eq. Qed.
+Print Assumptions C04_source_tie_ifexp.
+Theorem C04_source_tie_leaves : forall M n z,
+  src_ev_num M z = of_eres (pyeval M (Num z) n) /\ src_ev_name M n = of_eres (pyeval M Var n).
+Proof. exact ev_tie_leaves. Qed.
+Print Assumptions C04_source_tie_leaves.
+
+(* one step of the visitor assembled from the translated BaseEvaluator methods (None / exception propagation, argument
+   order) and the leaf methods, through the hand-written mirror ev_visit1/2/n of the getattr dispatch, is one step of pyeval *)
+Theorem C04_source_tie_visitor : forall M n,
+  (forall o a b, src_base_binop (ev_vis M n) (ev_visit2 M) (NE a) (NE b) (NBin o) = of_eres (pyeval M (Bin o a b) n)) /\
+  (forall o a b, src_base_compare (ev_vis M n) (ev_visit2 M) [NE b] [NCmp o] (NE a) = of_eres (pyeval M (Cmp o a b) n)) /\
+  (forall a, src_base_unaryop (ev_vis M n) ev_visit1 (NE a) NNot = of_eres (pyeval M (Not a) n)) /\
+  (forall a b, src_base_boolop (ev_visitn M n) NAnd [NE a; NE b] = of_eres (pyeval M (And a b) n)) /\
+  (forall a b, src_base_boolop (ev_visitn M n) NOr [NE a; NE b] = of_eres (pyeval M (Or a b) n)) /\
+  (forall c a b, src_ev_ifexp (ev_vis M n) (NE c) (NE a) (NE b) = of_eres (pyeval M (If c a b) n)).
+Proof. exact ev_tie_visitor. Qed.
+Print Assumptions C04_source_tie_visitor.
+
+(* the untranslated parts (constructors: max = 1 << bits; __call__, the getattr dispatch _visit, _visit_expr) still have
+   the source text whose digest is recorded in the translator *)
+Theorem C04_source_tie_untranslated_pinned : src_pin_base = true /\ src_pin_ev = true.
+Proof. exact ev_pins. Qed.
+Print Assumptions C04_source_tie_untranslated_pinned.
 
 (* Non-vacuity *)
 Example C04_ex_parse :
